@@ -78,7 +78,9 @@ class Scripted(RandomSource):
 
 BOUNDS = [(0, 0), (5, 5), (-3, -3), (0, 1), (-1, 1), (0, 9), (-10, -2), (0, 1000), (0, 1001), (-2000, 3000), (0, 10**6),
           (-sys.maxsize, sys.maxsize), (0, sys.maxsize), (-(sys.maxsize - 1), sys.maxsize), (sys.maxsize - 3, sys.maxsize), (-sys.maxsize, -sys.maxsize + 2),
-          (1, sys.maxsize), (32, 128), (0, 10), (0, 2), (0, 255), (100, 101)]
+          (1, sys.maxsize), (32, 128), (0, 10), (0, 2), (0, 255), (100, 101),
+          # wider than one machine word / widths that are not a power of two
+          (-1, sys.maxsize), (-1000, sys.maxsize), (0, 10**19), (-2**62, sys.maxsize), (-sys.maxsize - 1, sys.maxsize), (0, 3 * 2**62), (0, 2**64), (5, 2**100 + 17)]
 GENES = [0, 1, 2, 3, 7, 255, 256, 1023, 1024, 10**6, sys.maxsize, sys.maxsize - 1, -1, -5, 2**31, 2**32 + 1]
 
 
@@ -142,6 +144,14 @@ def run(ctx):
     ctx.sample = {"primitive": prim}
     try:
         body(ctx, H, prim)
+        # the scenario's parameters belong to the event log (the distinct-scenarios measure is its digest)
+        import json
+
+        for k in sorted(ctx.sample):
+            try:
+                ctx.log("param", k, json.dumps(ctx.sample[k], sort_keys=True)[:300])
+            except (TypeError, ValueError):
+                pass
     except Exception as e:
         from ..world import short_tb, exc_site
 
